@@ -19,6 +19,20 @@
  * different sizes and the length is symbolic (here: the operation key, 1..3 bytes) */
 #define VF_CN "hasharr"
 #include "listmem.h"
+/* get()/getnext() allocate a size read from a slot selected by a solver-dependent index; a symbolic allocation size
+ * is intractable, so non-constant requests are served by an exact-size case split (1..VF_ALLOC_MAX bytes) */
+#ifndef VF_ALLOC_MAX
+#define VF_ALLOC_MAX 64
+#endif
+static void *vf_malloc_var(size_t n) {
+    void *p = NULL;
+    VF_ASSERT(n >= 1 && n <= VF_ALLOC_MAX, "C07.alloc.range: copy-out allocations stay within the size of the stored value (harness bound)");
+    for (size_t k = 1; k <= VF_ALLOC_MAX; k++)
+        if (n == k) p = vf_malloc(k);
+    return p;
+}
+#undef malloc
+#define malloc(n) (__builtin_constant_p(n) ? vf_malloc(n) : vf_malloc_var(n))
 
 #ifndef VF_M
 #define VF_M 3
@@ -145,6 +159,13 @@ static void build_image(void *mem) {
     }
     for (int c = 0; c < NK; c++) {
         if (C_KLEN[c]) vfin.klen[c] = C_KLEN[c];
+#ifdef VF_KEYTAG
+        /* reduction used by the GET/WALK queries only: stored key c is the constant key (0x40+c, '1', '2') cut to its length, so the
+         * outcome of the key comparison (and with it the slot index handed to the copy-out code) is decided during
+         * symbolic execution; keys sharing prefixes are covered by the PUT/REMOVE queries, which run the same get_idx() */
+        vfin.kb[c][0] = (uint8_t)(0x40 + c);
+        vfin.kb[c][1] = 0x31; vfin.kb[c][2] = 0x32; /* remaining key bytes constant too (get/walk queries vary the VALUE path) */
+#endif
         VF_ASSUME(vfin.klen[c] >= 1 && vfin.klen[c] <= KMAX);
         gkl[c] = vfin.klen[c];
         for (int b = 0; b < KMAX; b++) gk[c][b] = b < vfin.klen[c] ? vfin.kb[c][b] : 0;
@@ -277,7 +298,7 @@ static bool image_ok(void *mem, bool check_contents) {
 }
 
 static uint8_t *heap_copy(const uint8_t *src, size_t n) {
-    uint8_t *b = malloc(n > 0 ? n : 1);
+    uint8_t *b = vf_malloc(n > 0 ? n : 1); /* harness-side allocation: exact size, not subject to the copy-out bound */
     VF_ASSUME(b != NULL);
     for (size_t i = 0; i < n; i++) b[i] = src[i];
     return b;
@@ -329,6 +350,12 @@ void vf_harness(void) {
     opkl = gkl[VF_KCLASS];
     for (int b = 0; b < KMAX; b++) opk[b] = gk[VF_KCLASS][b];
 #else
+#ifdef VF_OPKLEN
+    vfin.opklen = VF_OPKLEN;
+#endif
+#ifdef VF_KEYTAG
+    vfin.opk[0] = (uint8_t)(0x40 + NKK + 1); vfin.opk[1] = 0x31; vfin.opk[2] = 0x32;
+#endif
     VF_ASSUME(vfin.opklen >= 1 && vfin.opklen <= KMAX);
     opkl = vfin.opklen;
     for (int b = 0; b < KMAX; b++) opk[b] = b < vfin.opklen ? vfin.opk[b] : 0;
@@ -400,7 +427,7 @@ void vf_harness(void) {
             vf_region_t *mem2_t = malloc(sizeof(vf_region_t));
             VF_ASSUME(mem2_t != NULL);
             void *mem2 = mem2_t;
-            memcpy(mem2, mem, memsize);
+            *mem2_t = *mem_t; /* byte-for-byte copy of the whole region to a different address */
             qhasharr_t *t2 = qhasharr(mem2, 0);
             VF_ASSUME(t2 != NULL);
             size_t sz2 = 0;
